@@ -23,7 +23,7 @@ import ast
 import itertools
 
 from .. import corpus, sym, uflmodel, uflsem
-from ..lift import LiftRaise, Obj, Unsupported
+from ..lift import Interp, LiftRaise, Obj, Unsupported
 from ..model import AnalysisError, norm
 from ..passlift import PassHarness, node_class
 from ..report import Report
@@ -45,11 +45,27 @@ DEFAULT_OK = {
 POLICY_RANK = {"_ignore_restriction": 0, "_default_restricted": 1, "_require_restriction": 2, "_opposite": 2, "_missing_rule": 3}
 
 
-class H1Model:
-    __lift_host__ = True
+def sobolev_spaces(prog):
+    """the declared Sobolev spaces of ufl.sobolevspace, built by interpreting their own declarations: `element in H1`,
+    `space <= H1`, `min(spaces)` are then the library's own relations"""
+    import ast as _ast
 
-    def __contains__(self, el):
-        return bool(el.attrs.get("in_H1"))
+    ip = Interp(prog)
+    ip.instantiable = {"SobolevSpace", "DirectionalSobolevSpace"}
+    ip.overrides["inf"] = float("inf")
+    ip.overrides["isinf"] = lambda x: x in (float("inf"), float("-inf"))
+    g = ip.exec_module_level("ufl.sobolevspace", lambda st: isinstance(st, _ast.Assign) and isinstance(st.value, _ast.Call) and norm(st.value.func) in ("SobolevSpace", "DirectionalSobolevSpace"))
+    if "H1" not in g or "L2" not in g:
+        raise AnalysisError("ufl.sobolevspace no longer declares H1 and L2")
+    return g
+
+
+def install_spaces(ip, spaces):
+    ip.instantiable |= {"SobolevSpace", "DirectionalSobolevSpace"}
+    ip.overrides["inf"] = float("inf")
+    ip.overrides["isinf"] = lambda x: x in (float("inf"), float("-inf"))
+    for name, space in spaces.items():
+        ip.overrides[name] = space  # one object per declared space in every interpreter
 
 
 import re
@@ -109,6 +125,7 @@ def run(ctx) -> Report:
     from ..memokey import check_memo_keys, memo_rule  # noqa: F401
     check_memo_keys(ctx, rep, "C17-key", ["ufl.algorithms.apply_restrictions"], min_sites=1)
     cls = prog.get_class(CLS)
+    SP = sobolev_spaces(prog)
     ctx.crosscheck_dispatch({"RestrictionPropagator"})
     tab = ctx.disp.mf_table(cls)
     cm, _ = uflmodel.base_models(gdim=2, tdim=2)
@@ -117,7 +134,7 @@ def run(ctx) -> Report:
     pos, negr = cm["PositiveRestricted"], cm["NegativeRestricted"]
 
     def world(gdim, tdim, degree, in_h1=True):
-        coord_el = Obj("element", embedded_superdegree=degree, in_H1=in_h1)
+        coord_el = Obj("element", embedded_superdegree=degree, sobolev_space=SP["H1" if in_h1 else "L2"], sub_elements=[])
         ucell = Obj("cell", cellname={1: "interval", 2: "triangle", 3: "tetrahedron"}[tdim], topological_dimension=tdim, is_simplex=True)
         dom = Obj(
             "domain",
@@ -135,14 +152,21 @@ def run(ctx) -> Report:
             t.tags["domain"] = dom
             return t
 
-        el_c = Obj("element", in_H1=True)
-        el_d = Obj("element", in_H1=False)
+        el_c = Obj("element", sobolev_space=SP["H1"], sub_elements=[])
+        el_d = Obj("element", sobolev_space=SP["L2"], sub_elements=[])
+        # mixed elements: as continuous as their weakest part
+        el_m = Obj("element", sobolev_space=SP["L2"], sub_elements=[el_c, el_d])
+        el_mc = Obj("element", sobolev_space=SP["H1"], sub_elements=[el_c, Obj("element", sobolev_space=SP["H2"], sub_elements=[])])
+        el_mn = Obj("element", sobolev_space=SP["L2"], sub_elements=[Obj("element", sobolev_space=SP["H1"], sub_elements=[el_c, el_c]), Obj("element", sobolev_space=SP["HDiv"], sub_elements=[])])
         W = dict(
             dom=dom,
             affine=affine,
             v=argument("v", 0),
             fd=term("fd", (), "Coefficient", ufl_element=lambda: el_d),
             fc=term("fc", (), "Coefficient", ufl_element=lambda: el_c),
+            fm=term("fm", (2,), "Coefficient", ufl_element=lambda: el_m),
+            fmc=term("fmc", (2,), "Coefficient", ufl_element=lambda: el_mc),
+            fmn=term("fmn", (4,), "Coefficient", ufl_element=lambda: el_mn),
             c=term("c", (), "Constant"),
             x=term("x", (gdim,), "SpatialCoordinate"),
             n=term("n", (gdim,), "FacetNormal"),
@@ -192,9 +216,16 @@ def run(ctx) -> Report:
         add("(v('+'))('-')   (double restriction)", negr(pos(v)), False)
         add("(fd('+')*v)('-')", negr(P(pos(fd), v)), False)
         add("grad(fd)[0]*v('+')   (gradient unrestricted)", P(idx(gfd, 0), pos(v)), False)
+        # mixed elements
+        fm, fmc, fmn = W["fm"], W["fmc"], W["fmn"]
+        add("fm('+')[1]*v('-')   (H1 x L2 coefficient, restricted)", P(idx(pos(fm), 1), negr(v)))
+        add("fmc[0]*v('+')   (H1 x H2 coefficient unrestricted: continuous)", P(idx(fmc, 0), pos(v)))
+        add("fm[0]*v('+')   (H1 x L2 coefficient unrestricted)", P(idx(fm, 0), pos(v)), False)
+        add("fm[1]*v('+')   (H1 x L2 coefficient unrestricted)", P(idx(fm, 1), pos(v)), False)
+        add("fmn[0]*v('-')   ((H1 x H1) x HDiv coefficient unrestricted)", P(idx(fmn, 0), negr(v)), False)
         return E
 
-    side_dependent_roots = {"v", "fd", "h", "n", "d0(fd)", "d1(fd)", "D0(x", "D1(x"}
+    side_dependent_roots = {"v", "fd", "fm", "fmn", "h", "n", "d0(fd)", "d1(fd)", "D0(x", "D1(x"}
     independent_roots = {"c", "qw"}
     n_val = 0
     for gdim, tdim, degree, in_h1, label in ((2, 2, 1, True, "affine non-manifold"), (3, 2, 1, True, "affine manifold"), (2, 2, 2, True, "degree-2 mesh")):
@@ -204,7 +235,7 @@ def run(ctx) -> Report:
                 H = PassHarness(ctx, CLS, gdim=gdim, tdim=tdim)
                 ip = H.ip
                 ip.instantiable |= {"RestrictionPropagator"}
-                ip.overrides["H1"] = H1Model()
+                install_spaces(ip, SP)
                 ip.overrides["extract_unique_domain"] = lambda o, expand_mesh_sequence=True: W["dom"]
                 side_cls = {"+": ip.class_models["PositiveRestricted"], "-": ip.class_models["NegativeRestricted"]}
                 ip.call_value = lambda t, args, kw: side_cls[args[0]](t)
@@ -240,7 +271,7 @@ def run(ctx) -> Report:
                 if raised:
                     rep.violation("C17-value", cls, f"{desc} [{label}]", f"apply_restrictions fails on {tag}: {raised}")
                     continue
-                continuous = {"fc", "x", "fa", "c", "qw"}  # continuous across the facet or side-independent
+                continuous = {"fc", "fmc", "x", "fa", "c", "qw"}  # continuous across the facet or side-independent
                 opposite = {"n"} if W["affine"] else set()
                 # meaning of the input: unrestricted continuous symbols are the common value
                 a, b = canon(got, continuous, opposite), canon(e, continuous, opposite)
@@ -264,7 +295,7 @@ def run(ctx) -> Report:
         # cell integral: no default side, restrictions are an error
         H = PassHarness(ctx, CLS, gdim=gdim, tdim=tdim)
         H.ip.instantiable |= {"RestrictionPropagator"}
-        H.ip.overrides["H1"] = H1Model()
+        install_spaces(H.ip, SP)
         H.ip.overrides["extract_unique_domain"] = lambda o, expand_mesh_sequence=True: W["dom"]
         side_cls = {"+": H.ip.class_models["PositiveRestricted"], "-": H.ip.class_models["NegativeRestricted"]}
         H.ip.call_value = lambda t, args, kw: side_cls[args[0]](t)
